@@ -307,11 +307,11 @@ func runC13(tier string) int {
 	t0 := time.Now()
 	w := buildWorkerH()
 	r := newHistResult("C13", tier)
-	kinds := []string{"CV", "IV", "CB", "CF", "CG", "CW", "CZ", "CX", "GE", "GX", "GR", "GS", "GB", "NW", "NF", "NB", "SD", "SW", "SP", "SM", "SA", "SB", "ST"}
+	kinds := []string{"CV", "IV", "CB", "CF", "CG", "CW", "CZ", "CN", "CX", "GE", "GX", "GR", "GS", "GB", "NW", "NF", "NB", "SD", "SW", "SP", "SM", "SA", "SB", "ST"}
 	// 258 = English + 256, 4294967298 = English + 2^32, -254 = English - 256: unsupported values that
 	// collide with a supported one when a Language is squeezed into a narrower integer (a cache key,
 	// a table index)
-	langs := []int{2, 5, 8, 9, 10, 258}
+	langs := []int{0, 2, 5, 8, 9, 10, 258} // 0 = ChineseSimplified is also the zero value of Language
 	maxStates := 64
 	if tier == "thorough" {
 		langs = []int{0, 1, 2, 3, 4, 5, 6, 7, 8, 9, 10, -1, 258, 4294967298, -254}
@@ -323,7 +323,7 @@ func runC13(tier string) int {
 	}
 	// complete 10 x 10 ordered first-use matrix: first two table-building calls, then every language
 	var matrix [][]string
-	tailKinds := []string{"CV", "CB", "CZ"}
+	tailKinds := []string{"CV", "CB", "CZ", "CN"}
 	fullBase := map[string]string{}
 	var tailOps []string
 	for _, l := range allLangs {
@@ -393,6 +393,68 @@ func runC13(tier string) int {
 		}
 		long = append(long, h)
 	}
+	// many DISTINCT arguments (a memo, pool or table keyed by the argument that misbehaves once it is
+	// full, evicts, promotes, or is hit a second time): K valid sentences, K encodings and Ks seeds
+	// with re-uses at every power-of-two distance, plus every sentence between two validations of its
+	// checksum-damaged twin; each indexed call has its own fresh-process baseline
+	fillK, fillS := 130, 40
+	if tier == "thorough" {
+		fillK, fillS = 4200, 600
+	}
+	var fills [][]string
+	var idxOps []string
+	// every k-th new argument is followed by re-uses of the arguments seen 1, 2, 4, 8, ... positions
+	// earlier: all reuse distances up to K occur at every fill level (a plain second pass over more
+	// keys than a cache holds would only ever miss)
+	sawtooth := func(kind string, l, n int) []string {
+		item := func(k int) string {
+			if kind == "CK" && k%3 == 1 {
+				// verdicts of both kinds interleaved (a memo that files a result under the wrong key is only
+				// visible when neighbouring results differ)
+				return fmt.Sprintf("CJ:%d:%d", l, k)
+			}
+			return fmt.Sprintf("%s:%d:%d", kind, l, k)
+		}
+		var h []string
+		for k := 0; k < n; k++ {
+			h = append(h, item(k))
+			for d := 1; d <= k; d *= 2 {
+				h = append(h, item(k-d))
+			}
+		}
+		return h
+	}
+	for _, l := range []int{2, 5} {
+		h := sawtooth("CK", l, fillK)
+		for k := 0; k < fillK; k++ {
+			// the checksum-damaged twin right before and after its valid sentence
+			h = append(h, fmt.Sprintf("CJ:%d:%d", l, k), fmt.Sprintf("CK:%d:%d", l, k), fmt.Sprintf("CJ:%d:%d", l, k))
+		}
+		g := sawtooth("GK", l, fillK)
+		for k := 0; k < fillK; k++ {
+			idxOps = append(idxOps, fmt.Sprintf("CK:%d:%d", l, k), fmt.Sprintf("CJ:%d:%d", l, k), fmt.Sprintf("GK:%d:%d", l, k))
+		}
+		fills = append(fills, h, g)
+	}
+	{
+		h := sawtooth("SK", 2, fillS)
+		for k := 0; k < fillS; k++ {
+			idxOps = append(idxOps, fmt.Sprintf("SK:2:%d", k))
+		}
+		fills = append(fills, h)
+	}
+	var idxBase [][]string
+	for _, op := range idxOps {
+		idxBase = append(idxBase, []string{op})
+	}
+	ib, err := parallelHist(w, idxBase)
+	if err != nil {
+		die("%v", err)
+	}
+	for i, h := range ib {
+		e.baseline[idxOps[i]] = h.Steps[0].Outcome
+	}
+	long = append(long, fills...)
 	lo, err := parallelHist(w, long)
 	if err != nil {
 		die("%v", err)
@@ -402,6 +464,7 @@ func runC13(tier string) int {
 		e.checkRun(long[i], h)
 	}
 	r.Extra["long_histories"] = len(long)
+	r.Extra["distinct_argument_fill_histories"] = fmt.Sprintf("%d sentences / encodings x 2 languages, %d seeds", fillK, fillS)
 	// the process environment is not an argument either: the whole alphabet once under each of a
 	// few different environments (scheduler width, time zone, locale, home, extra variables the
 	// package reads); outcomes must equal the baseline
@@ -429,7 +492,7 @@ func runC13(tier string) int {
 	r.Transitions = e.transitions
 	r.Evaluations = e.transitions
 	r.Distinct = int64(len(e.distinctOut))
-	r.Rule = "explicit-state BFS over call histories: alphabet = 23 operation kinds (valid/invalid validations, the same string under every language, encodings, the same entropy under every language, NewMnemonic over a scripted source swapped in and out, failing source, seeds with shared mnemonic or shared passphrase, a seed whose returned slice the caller then wipes, one caller-owned entropy buffer refilled in place, String); error values returned earlier must keep their text x languages (quick: English, Japanese, Czech, Portuguese + unsupported 10 and 258; thorough: all ten + unsupported 10, -1, 258, 2^32+2, -254); every transition is executed in a fresh OS process by replaying the shortest history to the source state and then the operation; state = SHA-256 of a canonical dump of every package-level variable of bip39 and internal/wordlist; search runs to a fixpoint; plus the complete ordered first-use matrix (10x10 ordered language pairs, each followed by valid/invalid validations in all ten languages), plus long histories (every operation 70 times in a row; the whole alphabet twice; seven cheap operations 1100 times each, thorough 66000) and the whole alphabet under several process environments (GOMAXPROCS, TZ, locale, HOME, every environment variable the package reads). Oracle per executed call: outcome (value, error class and text, panic) equals the outcome of the same call in a fresh process; caller buffers and earlier results unchanged at the end of the history. distinct_nontrivial = distinct (operation, outcome) pairs observed"
+	r.Rule = "explicit-state BFS over call histories: alphabet = 24 operation kinds (valid/invalid validations, a valid sentence in a non-canonical equivalent spelling, the same string under every language, encodings, the same entropy under every language, NewMnemonic over a scripted source swapped in and out, failing source, seeds with shared mnemonic or shared passphrase, a seed whose returned slice the caller then wipes, one caller-owned entropy buffer refilled in place, String); error values returned earlier must keep their text x languages (quick: ChineseSimplified (the zero value), English, Japanese, Czech, Portuguese + unsupported 10 and 258; thorough: all ten + unsupported 10, -1, 258, 2^32+2, -254); every transition is executed in a fresh OS process by replaying the shortest history to the source state and then the operation; state = SHA-256 of a canonical dump of every package-level variable of bip39 and internal/wordlist; search runs to a fixpoint; plus the complete ordered first-use matrix (10x10 ordered language pairs, each followed by valid/invalid validations in all ten languages), plus long histories (every operation 70 times in a row; the whole alphabet twice; seven cheap operations 1100 times each, thorough 66000; fill histories over many distinct arguments: 130 (thorough 4200) valid sentences and as many encodings, 40 (thorough 600) seeds, each new argument followed by re-uses of the arguments seen 1, 2, 4, 8, ... positions earlier, and every sentence between two validations of its checksum-damaged twin) and the whole alphabet under several process environments (GOMAXPROCS, TZ, locale, HOME, every environment variable the package reads). Oracle per executed call: outcome (value, error class and text, panic) equals the outcome of the same call in a fresh process; caller buffers and earlier results unchanged at the end of the history. distinct_nontrivial = distinct (operation, outcome) pairs observed"
 	r.Extra["operations"] = len(e.ops)
 	r.Extra["first_use_matrix_histories"] = len(matrix)
 	r.Extra["reached_fixpoint"] = r.Exhaustive
